@@ -84,6 +84,10 @@ fn bad_points<G: AffineRepr>(rng: &mut Rng) -> Vec<(String, Vec<u8>)> {
     out
 }
 
+fn dec_point_unchecked(b: &[u8]) -> Result<ark_curve25519::EdwardsAffine, ()> {
+    <ark_curve25519::EdwardsAffine as CanonicalDeserialize>::deserialize_compressed_unchecked(b).map_err(|_| ())
+}
+
 /// torsion-shifted encodings on curve25519: P + T for T of order 2, 4, 8, and
 /// the small-order points themselves
 fn torsion_points(rng: &mut Rng) -> Vec<(String, Vec<u8>)> {
@@ -236,6 +240,38 @@ pub fn run_case<G: AffineRepr>(run: u64, case: &Case, st: &mut Stats) {
             }
             st.probe(&format!("bad-point:{}", name.split(':').next().unwrap_or("")));
         }
+    }
+    // pairs of points shifted by T and -T (the torsion components cancel in any
+    // aggregate check): every pair of point slots x orders 2, 4, 8
+    if want("point-pair") && case.curve == Curve::Ed {
+        use ark_curve25519::{EdwardsAffine as A, EdwardsProjective as P};
+        let tors = torsion_points(&mut rng);
+        let mut slots: Vec<(usize, usize)> = lay.pts.clone();
+        slots.extend(lay.l.iter());
+        slots.extend(lay.r.iter());
+        // the bare small-order points T2, T4, T8 are entries 0, 2, 4 of `tors`
+        for ti in [0usize, 2, 4] {
+            let Some((name, tenc)) = tors.get(ti) else { continue };
+            let Ok(t) = dec_point_unchecked(tenc) else { continue };
+            for i in 0..slots.len() {
+                for j in (i + 1)..slots.len() {
+                    let (pi, pj) = (dec_point_unchecked(&bytes[slots[i].0..slots[i].1]), dec_point_unchecked(&bytes[slots[j].0..slots[j].1]));
+                    let (Ok(pi), Ok(pj)) = (pi, pj) else { continue };
+                    let a: A = (P::from(pi) + P::from(t)).into_affine();
+                    let b2: A = (P::from(pj) - P::from(t)).into_affine();
+                    let mut b = bytes.clone();
+                    b[slots[i].0..slots[i].1].copy_from_slice(&enc_point(&a));
+                    b[slots[j].0..slots[j].1].copy_from_slice(&enc_point(&b2));
+                    st.fault("F13-point-pair-cancelling-torsion");
+                    st.steps += 1;
+                    if let Err(e) = is_format_error::<G>(&b) {
+                        viol(st, "invalid-point-rejected", "point-pair", format!("point slots #{} and #{} shifted by +T and -T ({}): {}", i, j, name, e));
+                        break;
+                    }
+                }
+            }
+        }
+        st.probe("bad-point:cancelling-pairs");
     }
     // F14 stream faults (a subset; C08 enumerates offsets)
     if want("stream") {
